@@ -4,7 +4,8 @@ from cycle_common import run_cycle
 from seq_common import replay_seq
 
 PROPERTY = 'C13'
-PROPS = ['SalsaVerif.Props.C13']
+GEN = ['LogicCycle']
+PROPS = ['SalsaVerif.Props.C13', 'SalsaVerif.Props.GenLogicCycle']
 KNOWN = ('fb-participant-after-revalidated-head', 'fix-participant-stale-after-revalidation')
 EXPLANATION = ('Theorems about the Lean cycle model for programs whose cycle members use cycle_result, for ANY entry node and ANY history of requests '
                'in a revision: a memoised fallback node holds its fallback value IFF it lies on a cycle of the input-determined call graph, '
